@@ -66,6 +66,34 @@ CHECKS['C15'] = dict(
          'formatting (values travel through the file as tokens).',
     design='DESIGN.md 1/C15')
 
+CHECKS['C09'] = dict(
+    text='For enumerated layouts of individual ids (unequal block lengths, non-ascending ids, single individual, '
+         'non-contiguous ids refused), four API paths (BIOGEME, expression, evaluation after rows were removed, '
+         'Monte-Carlo with user generators) and ALL cell/parameter/draw values, z3 shows each individual value is the '
+         'product over exactly its rows, draws are per individual and shared by its rows, sample size = individuals.',
+    note='Trusted: engine contract (product over rows first..last of the map; draws[individual][r][id]). Outside: tables '
+         'with more than 6 rows, the row loop inside the C++ engine.',
+    design='DESIGN.md 1/C09')
+CHECKS['C10'] = dict(
+    text='DECIDABLE PART. Monte-Carlo with 2-3 draw variables of user/native types (alphabetical order != order of '
+         'appearance, same type twice), tagged symbolic generators, expression and BIOGEME paths: z3 shows the value is '
+         'the mean over draws with each variable fed a series of its own generator. Derive equals the symbolic derivative '
+         'w.r.t. the named element (also when one Derive object is evaluated in two numbering contexts); Integrate hands '
+         'over the index of the named variable.',
+    note='NOT claimed: reproducibility with a seed (numpy RNG), quadrature accuracy of Integrate (C++ engine).',
+    design='DESIGN.md 1/C10')
+CHECKS['C12'] = dict(
+    text='For every (host operator, position) of 24 operator templates (all 40 in thorough), one and two levels deep, '
+         'and seven solver-forked fault kinds, BIOGEME(...) (expression and dict form) and the expression API raise '
+         'BiogemeError with a message while the fault-free host is accepted; panel placement, derivative flags, bad data, '
+         'tables changed after construction; all membership matrices of 4 alternatives x 2-3 nests: check_partition <=> '
+         'pairwise disjoint and models refuse invalid ones; missing data: declared (symbolic-cell) code reaches the '
+         'engine on both paths and the engine-model error condition is equivalent (z3) to "a cell actually read equals '
+         'the code".',
+    note='Trusted: engine contract for the missing-data error (raised iff the cell read equals the code; lazy '
+         'evaluation of Elem/ConditionalSum/logit). Outside: deeper hosts, catalogs.',
+    design='DESIGN.md 1/C12')
+
 NOT_APPLICABLE = {}
 
 
